@@ -699,12 +699,27 @@ def _scan_spec_funcs(u):
         ln = text.count('\n', 0, m.start()) + 1
         if any(a <= ln <= b for a, b in known):
             continue
-        j = lex.find_at_depth0(msk, m.end(), len(msk), '{;')
-        if j < 0 or msk[j] != '{':
-            continue
-        try:
-            k = lex.match_bracket(msk, j)
-        except lex.LexError:
+        # the body is the last top-level `{..}` group of the item: groups inside requires/ensures
+        # (`match x { .. },`, `if c { a } else { b }`) are followed by `,`, an operator, `else` or a clause keyword
+        pos = m.end()
+        k = -1
+        bad = False
+        while True:
+            j = lex.find_at_depth0(msk, pos, len(msk), '{;')
+            if j < 0 or msk[j] != '{':
+                bad = True
+                break
+            try:
+                k = lex.match_bracket(msk, j)
+            except lex.LexError:
+                bad = True
+                break
+            mm = re.match(r'\s*(,|&&|\|\||==>|<==>|==|!=|=~=|\+|-|\*|/|\.|else\b|ensures\b|requires\b|decreases\b|recommends\b|via\b|when\b)', msk[k + 1:k + 200])
+            if mm:
+                pos = k + 1
+                continue
+            break
+        if bad or k < 0:
             continue
         f = Func(m.group(1), u.lines[ln - 1].origin[1], 'fn:' + m.group(1), None, False)
         f.start = ln
